@@ -34,14 +34,16 @@ COMPONENTS = {
              "the whole CWL run that produced the database (see C29)"],
     "stub": ["aiosqlite thread -> FIFO server", "run_in_subprocess seam"],
 }
-ASSUMPTIONS = ["null inputs/outputs need no representation", "array values are checked for the presence of their entity, not element by element",
+ASSUMPTIONS = ["a run that exhausts its wall-clock cap (300 s; documents with hundreds of process-spawning jobs on a loaded machine) or whose reference run is too slow is counted as undecided (probes wall_timeout_undecided, reference.timeout, reference.too_slow), never as a violation and never as evidence",
+               "null inputs/outputs need no representation", "array values are checked for the presence of their entity, not element by element",
                "runs that fail are not exported (the statement speaks of completed runs)"]
 # grammar 2 = grammar 1 + tool-level defaults, valueFrom reading another input, arrays of optional ints; runs without the
 # parameter (replay files recorded before it existed) use grammar 1, whose tape layout is unchanged
 TIERS = {"quick": {"runs": 200, "budget_s": 75, "chunk": 3, "params": {"grammar": 2}}, "thorough": {"runs": 20000, "budget_s": 900, "chunk": 2, "params": {"grammar": 2}}}
 # one run spawns up to a few hundred real processes (node, /bin/echo, /bin/cat): on a loaded machine a chunk may need minutes
 STALL_S = 900
-SIM_KW = {"max_steps": 3_000_000, "wall_cap": 120.0, "max_vtime": 1e7}
+WALL_TIMEOUT = "undecided"
+SIM_KW = {"max_steps": 3_000_000, "wall_cap": 300.0, "max_vtime": 1e7}
 
 
 def refs_of(obj, own=True):
